@@ -990,7 +990,7 @@ impl MqttClientImpl {
         debug!("client impl transition_to_state - old state: {}, new_state: {}", old_state, new_state);
 
         if new_state == ClientImplState::Connected {
-            let establishment_timeout = self.last_start_connect_time.unwrap() + self.connect_timeout;
+            let establishment_timeout = add_duration_saturating(self.last_start_connect_time.unwrap(), self.connect_timeout);
             let mut connection_opened_context = NetworkEventContext {
                 event: NetworkEvent::ConnectionOpened(ConnectionOpenedContext{
                     establishment_timeout,
